@@ -105,7 +105,8 @@ func c05Alphabet(ft int) []string {
 	return []string{"Get(ok)", "Get(fail)", "Advance(1s)", "Advance(FT*0.95-16ns)", "Advance(FT*1.05+1ns)", "ExpireAll(backend)", "Get(fail, caller context already cancelled)",
 		"Get(fail, caller context carries TTL 1s)", "Get(ok, caller context carries TTL 1h)",
 		"Get(fail) of another key", "cleanup cycle of the failure cache", "Get(ok, the builder returns the cached value again)",
-		"Get(fail, the builder's error is a timeout of its own: matches context.DeadlineExceeded)"}
+		"Get(fail, the builder's error is a timeout of its own: matches context.DeadlineExceeded)",
+		"Get(ok, the builder's result is a nil value)"}
 }
 
 func c05Burst(cfg FCfg, env *Env) CellResult {
@@ -222,10 +223,14 @@ func c05Window(cfg FCfg, env *Env) CellResult {
 
 			for _, o := range seq {
 				switch o {
-				case 0, 1, 6, 7, 8, 11, 12:
+				case 0, 1, 6, 7, 8, 11, 12, 13:
 					h.cfg.Script = "o"
-					if o != 0 && o != 8 && o != 11 {
+					if o != 0 && o != 8 && o != 11 && o != 13 {
 						h.cfg.Script = "f"
+					}
+
+					if o == 13 {
+						h.cfg.Script = "n" // negative caching: "nothing there" is a result, and it is cached like one
 					}
 
 					if o == 12 {
@@ -259,7 +264,7 @@ func c05Window(cfg FCfg, env *Env) CellResult {
 					t, isNil, _, err := h.front.Get(gctx, key, h.builder(0))
 					vsched.Join()
 
-					e := c05Ev{op: ops[o], at: vclock.NowQuiet(), built: h.nbuild[0] > nb, failed: o != 0 && o != 8 && o != 11 && h.nbuild[0] > nb, hourTTL: o == 8}
+					e := c05Ev{op: ops[o], at: vclock.NowQuiet(), built: h.nbuild[0] > nb, failed: o != 0 && o != 8 && o != 11 && o != 13 && h.nbuild[0] > nb, hourTTL: o == 8}
 
 					switch {
 					case err != nil:
